@@ -239,6 +239,16 @@ func init() {
 	}
 	externWrites["github.com/aws/aws-sdk-go/aws/awserr.New"] = noWrites
 	externReads["github.com/aws/aws-sdk-go/aws/awserr.New"] = func(fn *ssa.Function) []hkey { return nil }
+	externs["reflect.DeepEqual"] = func(f *Frame, b *ssa.BasicBlock, in *ssa.Call, args []Val, st *State, g string) Val {
+		e := f.e
+		e.note("assumed contract: reflect.DeepEqual(x, y) is the library's structural equality of the two values in the current state (uninterpreted: deep_equal); no heap effect")
+		e.declRaw("deep_equal", "(declare-fun deep_equal (Iface Iface) Bool)")
+		if len(args) != 2 || args[0].T == "" || args[1].T == "" {
+			return Val{T: e.freshConst(hname(f, in, "deq"), "Bool")}
+		}
+		return Val{T: app("deep_equal", args[0].T, args[1].T)}
+	}
+	externWrites["reflect.DeepEqual"] = noWrites
 	externWrites["strings.Fields"] = noWrites
 	externReads["strings.Fields"] = func(fn *ssa.Function) []hkey { return nil }
 	externWrites["strings.Join"] = noWrites
